@@ -50,7 +50,9 @@ def handleC19 (c : Case) : Verdict :=
       let cfg : Cfg := ⟨tokBool op 2, tokBool op 3, prealloc, sparseTruncFirstOfSource, hardlinkDropsStateOfSource⟩
       let lbl := ((c.find "lbl").map (·.getD 1 "-")).getD "-"
       let labels := (lbl.splitOn ",").filter (· != "-")
-      if rr.getD 1 "" == "hang" then .specfalse "C19:restore-hangs" lbl else
+      -- a run that hit the harness timeout: liveness is outside the statement (C19 speaks about
+      -- successful restores); reported in the label histogram, never silently dropped
+      if rr.getD 1 "" == "hang" then .agree false ("hang-timeout" :: labels) else
       let exit := tokInt rr 1
       let implFinal : Option Bytes := if rr.getD 2 "" == "reg" then unrle (rr.getD 3 "-") else none
       let implKind := rr.getD 2 ""
